@@ -214,7 +214,7 @@ places that call `alloc` — `vecResize` when it reallocates (`growCap cap n`) a
 non-empty vector (`len`) — along the branches of each token.  Its tie to the model is
 `alloc_log_accounts_for_brk`.  No hypothesis on `c` (page size, `wipe`, `undo` are irrelevant to the
 balance). -/
-theorem alloc_release_balance (c : Cfg) (oracle : Nat → Bool) (toks : List Tok) :
+theorem alloc_release_balance (c : Cfg) (oracle : Nat → LockAns) (toks : List Tok) :
     (runReleases c (State.init oracle) toks).Perm (runAllocs c (State.init oracle) toks) :=
   Proofs.Protected.alloc_release_balance c oracle toks
 
@@ -223,7 +223,7 @@ theorem alloc_release_balance (c : Cfg) (oracle : Nat → Bool) (toks : List Tok
 the teardown — any oracle, refusals and panics included — the freed list is a PERMUTATION of the allocated list,
 the allocated bases are pairwise different (so the pairs identify blocks), and consequently no pair occurs twice in
 the freed list: every block handed out by the allocator is given back exactly once. -/
-theorem alloc_release_balance_pairs (c : Cfg) (hP : 0 < c.P) (oracle : Nat → Bool) (toks : List Tok)
+theorem alloc_release_balance_pairs (c : Cfg) (hP : 0 < c.P) (oracle : Nat → LockAns) (toks : List Tok)
     (hz : NoProtZeroize c (State.init oracle) toks) :
     let e := finish c (runState c (State.init oracle) toks)
     e.m.k.fr.Perm e.m.k.al ∧ (e.m.k.al.map Prod.fst).Nodup ∧ e.m.k.fr.Nodup :=
@@ -231,7 +231,7 @@ theorem alloc_release_balance_pairs (c : Cfg) (hP : 0 < c.P) (oracle : Nat → B
 
 /-- … and on the way: in every reachable state the allocated blocks are the freed ones plus those of the live
 slots, with pairwise different bases below the bump pointer -/
-theorem ledger_reachable (c : Cfg) (hP : 0 < c.P) (oracle : Nat → Bool) (toks : List Tok)
+theorem ledger_reachable (c : Cfg) (hP : 0 < c.P) (oracle : Nat → LockAns) (toks : List Tok)
     (hz : NoProtZeroize c (State.init oracle) toks) :
     let s := runState c (State.init oracle) toks
     s.m.k.al.Perm (s.m.k.fr ++ ownedSlots s.slots) ∧ (s.m.k.al.map Prod.fst).Nodup ∧
